@@ -12,7 +12,7 @@ use stretto::verif::counters;
 pub static OPS_DONE: AtomicU64 = AtomicU64::new(0);
 /// what the runner is doing (for diagnosis): an index into PHASES
 pub static PHASE: AtomicU64 = AtomicU64::new(0);
-pub const PHASES: [&str; 12] = ["idle", "build", "ops", "wait", "clear", "close", "tick", "quiesce", "check", "drop", "join-clients", "gate"];
+pub const PHASES: [&str; 13] = ["idle", "build", "ops", "wait", "clear", "close", "tick", "quiesce", "check", "drop", "join-clients", "gate", "stop-helpers"];
 
 pub fn phase(p: &str) {
     let i = PHASES.iter().position(|x| *x == p).unwrap_or(0);
@@ -149,8 +149,10 @@ fn is_poller(tid: u64) -> bool {
 /// Threads that wake up on their own without doing work for anybody (pure reactors).
 fn is_background_noise(comm: &str) -> bool {
     // async-io's reactor polls with a back-off while somebody sits in its block_on; the harness'
-    // own time-keeper only moves the virtual clock and feeds ticks
-    comm.starts_with("async-io") || comm.starts_with("timekeeper")
+    // own time-keeper only moves the virtual clock and feeds ticks - except while the runner is
+    // waiting for that very thread to end
+    let stopping_helpers = PHASES[PHASE.load(Ordering::SeqCst) as usize % PHASES.len()] == "stop-helpers";
+    comm.starts_with("async-io") || (comm.starts_with("timekeeper") && !stopping_helpers)
 }
 
 /// Run `f` on a runner thread. `watchdog`: generous wall-clock limit (inconclusive when it fires).
